@@ -233,7 +233,11 @@ class HttpWebServerPlugin(HttpProtocolHandlerPlugin):
                         'No route found for pipelined request, will tear down request...',
                     )
                 route.handle_request(self.pipeline_request)
-                if not self.pipeline_request.is_http_1_1_keep_alive:
+                # NOTE: A route which relays its response out of band
+                # (e.g. reverse proxy) still owes the client a response,
+                # upstream will end the exchange for non keep-alive requests.
+                if not self.pipeline_request.is_http_1_1_keep_alive and \
+                        not route.is_response_pending():
                     raise HttpProtocolException(
                         'Pipelined request is not keep-alive, will tear down request...',
                     )
